@@ -1,7 +1,9 @@
 //! H-store: MetaStore / EncryptedStore over the simulated disk (C07 C08 C09).
 simcore::install_libc_seams!();
 
+mod c07;
 mod c08;
+mod c09;
 mod common;
 
 use simcore::batch::{CheckSpec, PhaseSpec, parse_args, standard_main};
@@ -41,8 +43,57 @@ fn main() {
                 required_faults: &["power_loss"],
             },
             vec![(
-                PhaseSpec { label: "mixed", quick_runs: 1500, thorough_runs: 60000, quick_budget_s: 50.0, thorough_budget_s: 900.0 },
+                PhaseSpec { label: "mixed", quick_runs: 40000, thorough_runs: 3000000, quick_budget_s: 50.0, thorough_budget_s: 900.0 },
                 Arc::new(c08::H),
+            )],
+        ),
+        "C07" => standard_main(
+            &opts,
+            &CheckSpec {
+                harness_name: "h_store",
+                level: "exploration",
+                rule: "one evaluation = one simulated run (generated call sequence, 1-3 clients) whose recorded history is checked for linearizability against the reference object-store model; distinct = distinct (operation/result shape, schedule signature) among runs that had >=2 backend calls parked at once or contained a refused conditional write / precondition",
+                real: REAL,
+                stub: STUB,
+                assumptions: &[
+                    "reference semantics = object_store::memory::InMemory 0.14 as encoded in RefStore; the model-vs-inmemory phase runs the same generator against a bare InMemory and must agree",
+                    "latitude table (h_store/src/c07.rs Latitude::wrapper): opaque tokens; no versions; delete of a missing key Ok or NotFound; self-rename keeps the object; missing e_tag on Update may be Precondition; get_ranges beyond the end may error instead of clamping",
+                    "listings are non-snapshot under concurrency: each entry/absence linearizes on its own within the call",
+                    "date preconditions are decided only once the commit's timestamp has been observed",
+                ],
+                required_probes: &["cas_precondition_refused", "cas_update_succeeded", "create_refused"],
+                required_faults: &[],
+            },
+            vec![
+                (
+                    PhaseSpec { label: "model-vs-inmemory", quick_runs: 10000, thorough_runs: 200000, quick_budget_s: 20.0, thorough_budget_s: 120.0 },
+                    Arc::new(c07::H { bare: true }),
+                ),
+                (
+                    PhaseSpec { label: "wrappers", quick_runs: 60000, thorough_runs: 4000000, quick_budget_s: 50.0, thorough_budget_s: 900.0 },
+                    Arc::new(c07::H { bare: false }),
+                ),
+            ],
+        ),
+        "C09" => standard_main(
+            &opts,
+            &CheckSpec {
+                harness_name: "h_store",
+                level: "fault_enumeration",
+                rule: "one evaluation = one (single-site tamper of the backend objects, strict|compat mode) pair followed by every read path on a cold EncryptedStore; tampers are enumerated completely per generated object set (every byte x 8 bit flips, every truncation length, 1-3 byte extensions, all pairwise object/metadata swaps, chunk swaps, re-pointing to every other known generation, stripping each metadata field and the downgrade combinations, semantic field rewrites); distinct = distinct (tamper kind, position, mode, per-read-path outcome pattern)",
+                real: REAL,
+                stub: STUB,
+                assumptions: &[
+                    "AES-GCM / GMAC are not attacked cryptographically: tampers are structural, single-site (plus the listed multi-field downgrade combinations)",
+                    "a full rollback (old metadata document together with its old payload) is outside the property and not injected",
+                    "plaintext windows shorter than 8 bytes are not searched for",
+                ],
+                required_probes: &["tamper_detected_by_some_read", "nonces_checked", "plaintext_windows_scanned"],
+                required_faults: &["bit_flip_metadata", "bit_flip_payload", "truncate_metadata", "truncate_payload", "swap_payload_objects", "swap_metadata_docs", "repoint_generation", "strip_metadata_fields"],
+            },
+            vec![(
+                PhaseSpec { label: "tamper-sweep", quick_runs: 48, thorough_runs: 4000, quick_budget_s: 60.0, thorough_budget_s: 900.0 },
+                Arc::new(c09::H),
             )],
         ),
         other => {
